@@ -172,6 +172,11 @@ func (e *Engine) invoke(fr *Frame, ret ssa.Value, fn *ssa.Function, binds []Valu
 			e.unsupported("stub target %s not found in harness package", target)
 		}
 		e.Res.Funcs["stub:"+name]++
+		if strings.HasPrefix(name, "log.Fatal") && fr != nil && fr.fn != nil && fr.fn.Pkg != nil && sf.Pkg != nil && fr.fn.Pkg != sf.Pkg {
+			// a native stub rewrites the harness's own package only: this log.Fatal of another package ends the
+			// native process, while the symbolic side hands it to the harness's stand-in
+			e.st.events = append(e.st.events, "process-exit")
+		}
 		fn = sf
 		binds = nil
 		name = fn.String()
@@ -210,6 +215,8 @@ func (e *Engine) invoke(fr *Frame, ret ssa.Value, fn *ssa.Function, binds []Valu
 	}
 	if pkgPathOf(fn) == "log" {
 		if strings.Contains(fn.Name(), "Fatal") {
+			// (not stubbed by the harness: natively the process exits here)
+			e.st.events = append(e.st.events, "process-exit")
 			e.goPanic("fatal", "log.Fatal", e.fatalValue())
 			panic(instrAbort{})
 		}
